@@ -106,3 +106,15 @@ claimed["C19"] = dict(
     text="For every enumerated mutant no loader panicked, hung or exhausted memory, no command exited with a status other than 0 or 1, and GetObject never returned err == nil with a kind or content different from the object of the requested id (damaged, truncated, bit-flipped or swapped files are reported as errors).",
     note="Trusted: the harness's guards. 'Arbitrary byte strings (coverage-guided)' is outside this family: bytes far from any valid file and outside the token grammars are not covered.",
 )
+claimed["C15"] = dict(
+    category="fault_enumeration",
+    technique="exhaustive crash-point enumeration: for every transition of a bounded BFS corpus (one representative of each modifying command, six seed states) the operation trace is recorded through an import-swap file-system seam and the command is re-run once per modifying operation (create/truncate, write, mkdir, rename, remove) with a kill immediately before it; every post-crash disk is judged by a recovery suite",
+    text="For every crash point of every corpus transition the post-crash repository still loads (ls-files exits 0; every read-only command that worked before and after the uninterrupted command still works, none panics), passes the independent fsck, keeps every previously intact object intact, and every branch names either its old commit or the commit of the uninterrupted run; an interrupted init leaves either a loadable repository or a directory where init can be run again.",
+    note="Crash model: process killed, kernel survives (post-crash disk = prefix of the modification sequence); power-loss reordering of unsynced pages is outside the statement and not modelled. Deviation bound 1 (one kill per execution), complete within the corpus; no randomly generated states (different family). Trusted: the seam (checked against the plain build), gitfmt.",
+)
+claimed["C16"] = dict(
+    category="fault_enumeration",
+    technique="exhaustive single-fault enumeration: for every transition of the same corpus, every operation point of kind create/open/read/readdir/write/mkdir/rename/remove (incl. those of start-up loading) x errno class (EIO; thorough adds ENOSPC, EACCES) fails once without touching the disk; each run is compared with the fault-free run",
+    text="For every single-fault position of every corpus transition the command either produced exactly the fault-free exit status, output and disk state, or exited non-zero without crashing; it never reported success with a different state; afterwards the repository passed the independent fsck, previously intact objects were intact, and a branch that moved named exactly the fault-free tip.",
+    note="Faults at operation granularity (a write either completes or fails; no short writes); stat calls excluded as the statement says. Deviation bound 1. Trusted: the seam, gitfmt.",
+)
